@@ -12,6 +12,7 @@ inside a try block that has handlers).  Callees are used through their class onl
 `preserves` (stated assumption) but may raise.
 """
 import ast
+import ctypes
 import os
 import time
 
@@ -108,6 +109,8 @@ class PFEngine(Engine):
         self.P0 = None
         self.yield_obligs = []
         self.prune_spec = False
+        self.havoc_loops = set()
+        self.inv_failed = set()
 
     # ---------------------------------------------------------------- precision cell
     def getP(self, st):
@@ -115,6 +118,16 @@ class PFEngine(Engine):
 
     def setP(self, st, term):
         st.heap['P'] = simp(term)
+
+    def merge_key(self, st):
+        """states are merged when they agree on the precision cell and on every integer-valued
+        local (those may hold a saved precision)"""
+        items = [st.heap['P'].get_id()]
+        for k in sorted(st.env):
+            v = st.env[k]
+            if isinstance(v, IntV) and not z3.is_int_value(v.t):
+                items.append((k, v.t.get_id()))
+        return tuple(items)
 
     def dirty(self, st):
         return st.heap['P'].get_id() != self.P0.get_id()
@@ -165,6 +178,9 @@ class PFEngine(Engine):
         if cn in self.helpers or cn in self.arbitrary:
             self.setP(st, fresh_int('P_after_%s' % cn))
             st.trace.append('L%s:havoc-by-%s' % (getattr(node, 'lineno', 0), cn))
+        if cn in self.conf.get('int_results', ()):
+            yield st, IntV(fresh_int('int_%s' % cn))
+            return
         yield st, UnkV('result of %s' % name)
 
     # ---------------------------------------------------------------- exceptional edges
@@ -209,12 +225,23 @@ class PFEngine(Engine):
                 yield st2, sig, val
 
     def on_loop_havoc(self, px, s, st, frame):
-        # the precision at a loop head: if the body can change it, it is unknown there
-        if writes_precision(s, self.helpers) or any(
-                isinstance(n, ast.Call) and call_name(n) in self.arbitrary for n in ast.walk(s)):
-            if not body_restores_syntactically(s):
-                self.setP(st, fresh_int('P_loop'))
-                st.trace.append('L%s:loop-havoc-P' % s.lineno)
+        """precision at a loop head: first candidate invariant "unchanged since loop entry";
+        loops whose back edge refutes it are re-analysed with the precision havocked there"""
+        if id(s) in self.havoc_loops:
+            self.setP(st, fresh_int('P_loop'))
+            st.trace.append('L%s:loop-havoc-P' % s.lineno)
+        st.heap[('loopP', id(s))] = st.heap['P']
+
+    def on_loop_back(self, px, s, st, frame):
+        head = st.heap.get(('loopP', id(s)))
+        if head is None or id(s) in self.havoc_loops:
+            return
+        cur = st.heap['P']
+        if cur.get_id() == head.get_id():
+            return
+        status, info = solve(st.pc, cur == head, rlimit=1000000, use_cvc5=False, max_refine=0)
+        if status != 'proved':
+            self.inv_failed.add(id(s))
 
 
 def generic_with(px, s, st, frame):
@@ -238,12 +265,21 @@ def body_restores_syntactically(loop):
     return False
 
 
+def name_chain(t):
+    """a.b.c  (attribute chain rooted at a plain name) or a plain name"""
+    while isinstance(t, ast.Attribute):
+        t = t.value
+    return isinstance(t, ast.Name)
+
+
 def may_raise_expr(e):
+    if name_chain(e):
+        return False
     for n in ast.walk(e):
         if isinstance(n, (ast.Call, ast.BinOp, ast.Subscript, ast.Compare, ast.UnaryOp, ast.Attribute,
                           ast.Await, ast.Yield, ast.YieldFrom)):
-            if isinstance(n, ast.Attribute) and isinstance(n.value, ast.Name):
-                continue       # plain name.attr read: treated as non-raising
+            if isinstance(n, ast.Attribute) and name_chain(n):
+                continue       # plain name.attr.attr read: treated as non-raising
             if isinstance(n, ast.Compare) and all(isinstance(o, (ast.Is, ast.IsNot)) for o in n.ops):
                 continue
             if isinstance(n, ast.UnaryOp) and isinstance(n.op, ast.Not):
@@ -259,9 +295,7 @@ def may_raise_stmt(s):
         v = s.value
         if v is None:
             return False
-        tgt_simple = all(isinstance(t, (ast.Name, ast.Attribute)) and
-                         (isinstance(t, ast.Name) or isinstance(t.value, ast.Name))
-                         for t in (s.targets if isinstance(s, ast.Assign) else [s.target]))
+        tgt_simple = all(name_chain(t) for t in (s.targets if isinstance(s, ast.Assign) else [s.target]))
         if isinstance(s, ast.AugAssign):
             # ctx.prec += 10 : int arithmetic on names/constants does not raise
             return not (tgt_simple and not may_raise_expr(v))
@@ -303,7 +337,23 @@ def handler_stmt_ids(fn):
 
 def analyze_function(qual, fn, conf, glob=None, max_paths=4000):
     """returns dict(status=proved|violated|unknown|skipped, obligations=[...])"""
+    import sys
+    if sys.getrecursionlimit() < 15000:
+        sys.setrecursionlimit(15000)
+    havoc_loops = set()
+    for _round in range(6):
+        res = analyze_once(qual, fn, conf, glob, max_paths, havoc_loops)
+        failed = res.pop('_inv_failed')
+        if not failed:
+            break
+        havoc_loops |= failed
+    res['loops_havocked'] = len(havoc_loops)
+    return res
+
+
+def analyze_once(qual, fn, conf, glob, max_paths, havoc_loops):
     eng = PFEngine(conf, qual)
+    eng.havoc_loops = set(havoc_loops)
     px = PathExec(eng)
     # statement-level exceptional edges
     orig_stmt = px.stmt
@@ -337,6 +387,7 @@ def analyze_function(qual, fn, conf, glob=None, max_paths=4000):
             if n > max_paths:
                 res['status'] = 'unknown'
                 res['reason'] = 'path budget exceeded'
+                res['_inv_failed'] = set()
                 return res
             kind = 'raise' if sig == RAISE else 'return'
             Pe = st2.heap['P']
@@ -354,14 +405,16 @@ def analyze_function(qual, fn, conf, glob=None, max_paths=4000):
                     rec['model'] = {'P0': str(m.eval(P0, model_completion=True)),
                                     'P_exit': str(m.eval(Pe, model_completion=True))}
             res['obligations'].append(rec)
-    except RecursionError:
+    except (RecursionError, ctypes.ArgumentError):
         res['status'] = 'unknown'
         res['reason'] = 'recursion limit'
+        res['_inv_failed'] = set()
         return res
     res['paths'] = n
     res['wall_s'] = round(time.time() - t0, 3)
     sts = [o['status'] for o in res['obligations']]
     res['status'] = 'violated' if 'violated' in sts else ('unknown' if 'unknown' in sts else 'proved')
+    res['_inv_failed'] = set(eng.inv_failed)
     return res
 
 
